@@ -54,6 +54,7 @@ type config struct {
 	Partial                      string
 	RestartIdx                   int
 	RestartAt                    time.Duration
+	Retries                      int
 	Barrier                      time.Duration // max time a driver withholds its finalize response waiting for the other nodes
 	ByzEager, ByzDoublePrecommit bool
 	Evil2                        bool
@@ -142,9 +143,13 @@ func (h *harness) barrier(ctx context.Context, idx int, height uint64) {
 	}
 }
 
+// usageExit is the exit code for usage/setup errors: 2, but 3 in the supervised
+// child (mapped back to 2 by the parent) because Go panics also exit with 2.
+var usageExit = 2
+
 func usageErr(format string, args ...any) {
 	fmt.Fprintf(os.Stderr, "h_c03: "+format+"\n", args...)
-	os.Exit(3) // mapped to 2 by the parent
+	os.Exit(usageExit)
 }
 
 func parseFlags(args []string) (config, bool, bool) {
@@ -172,8 +177,9 @@ func parseFlags(args []string) (config, bool, bool) {
 	fs.IntVar(&barrierMs, "barrier", -1, "ms a driver withholds its finalize response until all correct nodes got a finalize request for that height (default 3000 at the split target height, else 0)")
 	fs.BoolVar(&c.BarrierAll, "barrier-all", false, "apply -barrier at every height")
 	fs.BoolVar(&c.ByzEager, "byz-eager", false, "equivocate: byz votes for its block immediately instead of after the correct nodes voted")
-	fs.BoolVar(&c.ByzDoublePrecommit, "byz-double-precommit", false, "equivocate: as double proposer, byz also precommits both blocks (to different halves)")
+	fs.BoolVar(&c.ByzDoublePrecommit, "byz-double-precommit", false, "equivocate (as double proposer) and chaos -byzmode: byz also equivocates its precommits (different halves get different votes); halts the unmodified engine")
 	fs.BoolVar(&c.Evil2, "evil2", true, "equivocate: byz sends a second alternative header, in opposite arrival order on the two halves")
+	fs.IntVar(&c.Retries, "retries", 0, "rerun (same seed) up to this many times when the engine crashes the process; every crash is listed in the output field \"crashes\"")
 	fs.StringVar(&restart, "restart", "", "k@ms: restart node k after ms milliseconds (clean/chaos)")
 	fs.StringVar(&c.Partial, "partial", "", "file that periodically receives a partial JSON result")
 	fs.IntVar(&propMs, "proposal-ms", -1, "proposal timeout base")
@@ -296,6 +302,11 @@ func parseFlags(args []string) (config, bool, bool) {
 }
 
 func main() {
+	for _, a := range os.Args[1:] {
+		if a == "-child" || a == "--child" {
+			usageExit = 3
+		}
+	}
 	cfg, inProcess, verbose := parseFlags(os.Args[1:])
 	if inProcess {
 		os.Exit(runChild(cfg))
@@ -319,38 +330,55 @@ func runParent(cfg config, verbose bool) int {
 	}
 	args := append([]string{}, os.Args[1:]...)
 	args = append(args, "-child", "-partial", partial)
-	ctx, cancel := context.WithTimeout(context.Background(), cfg.Timeout+15*time.Second)
-	defer cancel()
-	cmd := exec.CommandContext(ctx, os.Args[0], args...)
-	var stdout, stderr bytes.Buffer
-	cmd.Stdout = &stdout
-	cmd.Stderr = io.MultiWriter(&stderr, os.Stderr)
-	err := cmd.Run()
-	if stdout.Len() > 0 && json.Valid(stdout.Bytes()) {
-		// A complete result was printed (a panic during engine shutdown does not matter).
-		os.Stdout.Write(stdout.Bytes())
+
+	var crashes []string
+	for attempt := 1; ; attempt++ {
+		_ = os.Remove(partial)
+		ctx, cancel := context.WithTimeout(context.Background(), cfg.Timeout+15*time.Second)
+		cmd := exec.CommandContext(ctx, os.Args[0], args...)
+		var stdout, stderr bytes.Buffer
+		cmd.Stdout = &stdout
+		cmd.Stderr = io.MultiWriter(&stderr, os.Stderr)
+		err := cmd.Run()
+		cancel()
+
+		out := map[string]any{}
+		if stdout.Len() > 0 && json.Unmarshal(stdout.Bytes(), &out) == nil && len(out) > 0 {
+			// A complete result was printed (a panic during engine shutdown does not matter).
+			if len(crashes) == 0 {
+				os.Stdout.Write(stdout.Bytes())
+				return 0
+			}
+		} else {
+			var ee *exec.ExitError
+			if errors.As(err, &ee) && ee.ExitCode() == 3 {
+				return 2
+			}
+			// The child died: fall back to the last partial result.
+			out = map[string]any{}
+			if data, rerr := os.ReadFile(partial); rerr == nil {
+				_ = json.Unmarshal(data, &out)
+			}
+			crash := crashExcerpt(stderr.String(), fmt.Sprint(err))
+			crashes = append(crashes, crash)
+			if attempt <= cfg.Retries {
+				fmt.Fprintf(os.Stderr, "h_c03: attempt %d crashed, retrying\n", attempt)
+				continue
+			}
+			if len(out) == 0 {
+				fmt.Fprintln(os.Stderr, "h_c03: child failed before producing any result:", err)
+				return 2
+			}
+			out["crashed"] = true
+			out["partial"] = true
+			out["crash"] = crash
+		}
+		out["attempts"] = attempt
+		out["crashes"] = crashes
+		enc, _ := json.Marshal(out)
+		os.Stdout.Write(append(enc, '\n'))
 		return 0
 	}
-	var ee *exec.ExitError
-	if errors.As(err, &ee) && ee.ExitCode() == 3 {
-		return 2
-	}
-
-	// The child died: fall back to the last partial result.
-	out := map[string]any{}
-	if data, rerr := os.ReadFile(partial); rerr == nil {
-		_ = json.Unmarshal(data, &out)
-	}
-	if len(out) == 0 {
-		fmt.Fprintln(os.Stderr, "h_c03: child failed before producing any result:", err)
-		return 2
-	}
-	out["crashed"] = true
-	out["partial"] = true
-	out["crash"] = crashExcerpt(stderr.String(), fmt.Sprint(err))
-	enc, _ := json.Marshal(out)
-	os.Stdout.Write(append(enc, '\n'))
-	return 0
 }
 
 func crashExcerpt(stderr, errStr string) string {
@@ -451,7 +479,7 @@ func runChild(cfg config) int {
 	for _, i := range h.correct {
 		if err := h.nodes[i].start(root); err != nil {
 			fmt.Fprintln(os.Stderr, "h_c03:", err)
-			return 3
+			return usageExit
 		}
 	}
 	for _, i := range h.correct {
@@ -517,7 +545,7 @@ WAIT:
 	enc, err := json.Marshal(out)
 	if err != nil {
 		fmt.Fprintln(os.Stderr, "h_c03: marshal:", err)
-		return 3
+		return usageExit
 	}
 	// Print before shutting down: the engine has shutdown races that can panic
 	// (and kill the process) after cancellation.
@@ -601,14 +629,21 @@ func (h *harness) result(withStores bool) map[string]any {
 		decisions[key(i)] = append([][4]any{}, n.rec.decisions...)
 		n.rec.mu.Unlock()
 
-		st := [][2]any{}
+		st := [][4]any{}
 		if withStores {
 			for ht := uint64(1); ; ht++ {
 				ch, err := n.stores.committed.LoadCommittedHeader(context.Background(), ht)
 				if err != nil {
 					break
 				}
-				st = append(st, [2]any{ht, hex.EncodeToString(ch.Header.Hash)})
+				// the stored commit certificate: round and the signer indices recorded for this header's hash
+				signers := []int{}
+				for _, sg := range ch.Proof.Proofs[string(ch.Header.Hash)] {
+					if len(sg.KeyID) == 2 {
+						signers = append(signers, int(sg.KeyID[0])<<8|int(sg.KeyID[1]))
+					}
+				}
+				st = append(st, [4]any{ht, hex.EncodeToString(ch.Header.Hash), ch.Proof.Round, signers})
 			}
 		}
 		stores[key(i)] = st
